@@ -146,7 +146,7 @@ class C12(StoreProp):
     thorough_runs = 40000
     chunk = 16
     w = dict(WEIGHTS)
-    w.update({'set_attr': 8, 'leak': 0, 'set_option': 6, 'remove': 4, 'add_demand': 4, 'add_control': 7, 'add_source': 3, 'restart': 3})
+    w.update({'set_attr': 8, 'leak': 0, 'set_option': 6, 'remove': 4, 'add_demand': 4, 'add_control': 7, 'add_source': 3, 'restart': 3, 'quality': 3})
     profile = {'weights': w, 'n_ops': (12, 45), 'junction_pdd': False, 'tank_attrs': ['level'],
                'restarts': [('inp', 8), ('pickle', 1), ('deepcopy', 1), ('dict', 1)]}
     rule = ('one case = one seeded edit history of 8-36 operations (all element kinds incl. every valve type and curve type, several demands per junction with '
